@@ -101,6 +101,8 @@ def run_factory_part(rep, tier):
 
 
 def replay(pid, d):
+    if d.get('kind') == 'content':
+        return replay_content(pid, d)
     common.use_repo()
     o = _observe(d['vector'])
     print('call    :', engine.brief_call(o['_call']))
@@ -115,8 +117,61 @@ def replay(pid, d):
     return 1
 
 
+def content_robustness_part(rep, tier):
+    """content is an argument too: every content (str / bytes / int, odd shapes) x requested mode is either encoded (and then a symbol
+    in the sense of C01-C03) or refused with a ValueError - never another exception"""
+    r = gen.rng(common.seed(), 'C14content')
+    bases = ['123', 'AB', 'ab', '\u70b9', '\u70b9\u8317', gen.kanji(r, 3), gen.hanzi(r, 2), '\xe4', '\u20ac', '\U0001f600', '\uff71', ' ', '0', '$%*+-./:']
+    tails = ['', '\n', '\r', '\r\n', '\x00', '\x0b', '\x1c', '\x85', '\u2028', '\n\n', ' ']
+    calls = []
+    for b in bases:
+        for t in tails:
+            for mode in (None, 'numeric', 'alphanumeric', 'byte', 'kanji', 'hanzi'):
+                kw = {} if mode is None else {'mode': mode}
+                calls.append(call('make', b + t, **kw))
+                if mode in (None, 'kanji') and t in ('', '\n', '\x00'):
+                    for enc in ('shift_jis', 'utf-8', 'gb2312'):
+                        try:
+                            calls.append(call('make', (b + t).encode(enc), **kw))
+                        except UnicodeError:
+                            pass
+                    calls.append(call('make_sequence', b + t, symbol_count=1, **kw))
+                    calls.append(call('make_qr', b + t, **kw))
+    for c in (b'\x81', b'\x81\x40\x81', b'\xeb\xbf\n', b'\x93\x5f\n', b'\x93\x5f\r', b'\x93\x5f\x93', b'\xb0\xa1\n', 0, 7, 10 ** 30):
+        for mode in (None, 'numeric', 'byte', 'kanji', 'hanzi'):
+            calls.append(call('make', c, **({} if mode is None else {'mode': mode})))
+    obs = symobs.observe_many([c for c in calls if c['api'] != 'make_sequence'], props=['C01', 'C02', 'C03'])
+    for c in calls:
+        if c['api'] == 'make_sequence':             # one observation per returned symbol, or one refusal
+            so = symobs.observe_sequence_symbols(c, props=['C02', 'C03'])
+            obs += so if so else [symobs.observe(c)]
+    rep.evaluations += len(calls)
+    n_ref = 0
+    for o in obs:
+        if 'res' in o or o['outcome']['status'] == 'ok':
+            continue
+        n_ref += 1
+        if 'ValueError' not in o['outcome'].get('mro', []):
+            rep.violation({'kind': 'content', 'module': 'props_args', 'call': o['_call'], 'failing_clauses': ['refusal_is_not_a_ValueError'], 'observed': o['outcome']},
+                          f"{engine.brief_call(o['_call'])} raised {o['outcome'].get('exc')}: {o['outcome'].get('msg', '')[:80]}")
+    rep.notes['content_robustness'] = {'calls': len(calls), 'refused_with_ValueError_or_worse': n_ref}
+    engine.judge_symbols(rep, [o for o in obs if 'res' in o], {'C01', 'C02', 'C03'}, lambda o, v: ('CR', engine.brief_call(o['_call'])[:40]), None)
+
+
+def replay_content(pid, d):
+    common.use_repo()
+    o = symobs.observe(d['call'], props=['C01', 'C02', 'C03'])
+    print('call    :', engine.brief_call(d['call']))
+    print('outcome :', o['outcome'])
+    if o['outcome']['status'] != 'ok' and 'ValueError' not in o['outcome'].get('mro', []):
+        print(f'VIOLATION property={pid} replay=(this file)')
+        return 1
+    return 0
+
+
 def run_c14(rep, tier):
     run_factory_part(rep, tier)
+    content_robustness_part(rep, tier)
     for modname in ('props_refusals',):
         try:
             mod = __import__('harness.' + modname, fromlist=['run_part'])
